@@ -581,18 +581,16 @@ class CheckedCoverageInstrumentation(python3_10.CheckedCoverageInstrumentation):
 
         # We want to place the instrumentation instructions before the PRECALL and KW_NAMES
         # instructions, if they are present, otherwise it may cause issues.
-        precall_instr = node.try_get_instruction(instr_index - 1)
-        assert precall_instr is not None, (
-            f"A Instruction should exist at index {instr_index - 1} in {node.basic_block}"
-        )
-        if precall_instr.name == "PRECALL":
+        # instr_index refers to the basic block itself, which also holds pseudo-instructions
+        # (TryBegin/TryEnd), so the neighbours must be looked up there as well.
+        def name_before(index: int) -> str | None:
+            previous = node.basic_block[index - 1] if index > 0 else None
+            return previous.name if isinstance(previous, Instr) else None
+
+        if name_before(instr_index) == "PRECALL":
             instr_index -= 1
 
-        kw_names_instr = node.try_get_instruction(instr_index - 1)
-        assert kw_names_instr is not None, (
-            f"Instruction should exist at index {instr_index - 1} in {node.basic_block}"
-        )
-        if kw_names_instr.name == "KW_NAMES":
+        if name_before(instr_index) == "KW_NAMES":
             instr_index -= 1
 
         # Instrumentation before the original instruction
